@@ -16,6 +16,9 @@ func TestReplay(t *testing.T) { vh.Replay(t) }
 var profile = life.Profile{
 	MaxOps: 20, WSend: 6, WPanic: 4, WGate: 3, WRelease: 3, WPoison: 2, WStop: 2, WRespawn: 2, WBurst: 1,
 	MaxChain: 1, MaxChildren: 0, Lifecycle: true, SpawnSends: true, MaxBudget: 4,
+	// chains of more than 300 self-sends (the inbox's throughput bound) followed by gates and stop
+	// requests: whatever the inbox does when it yields, Stopped stays the last thing an incarnation gets
+	WChain: 1, Spins: []int{0, 0, 10, 100},
 }
 
 // non-trivial: the history contains at least one stop request and at least one crash, or
